@@ -82,14 +82,42 @@ fn drive<'i, N: TypedNode<'i, R> + Debug>(input: &'i str, init: &'i [&'static st
     (ok, end, stack)
 }
 
+/// The same node on a Span sub-input of a longer text (offsets relative to the start of the sub-input).
+fn drive_span<'i, N: TypedNode<'i, R> + Debug>(input: &str, init: &'i [&'static str], check: bool) -> (bool, usize, Vec<String>) {
+    use pest_typed::{AsInput, Input};
+    let padded: &'static str = crate::common::padded_of(input);
+    let a = crate::common::PAD_BEFORE.len();
+    let mut st: Stack<Span<'i>> = Stack::new();
+    for t in init {
+        st.push(Span::new_full(t));
+    }
+    let span = Span::new(padded, a, a + input.len()).expect("boundaries");
+    let inp = span.as_input();
+    let mut tr = Tracker::<R>::new(inp);
+    let (ok, end) = if check {
+        match N::try_check_partial_with(inp, &mut st, &mut tr) {
+            Some(p) => (true, p.byte_offset()),
+            None => (false, a),
+        }
+    } else {
+        match N::try_parse_partial_with(inp, &mut st, &mut tr) {
+            Some((p, _)) => (true, p.byte_offset()),
+            None => (false, a),
+        }
+    };
+    let n = st.len();
+    let stack = if n == 0 { vec![] } else { st[0..n].iter().map(|s| s.as_str().to_string()).collect() };
+    (ok, end.wrapping_sub(a), stack)
+}
+
 fn compare<'i, N: TypedNode<'i, R> + Debug>(what: &str, stacks: &'i [Vec<&'static str>], inputs: &'i [String], rep: &mut Report, model: Model) {
     rep.rules += 1;
     for st in stacks {
         for input in inputs {
             rep.cases += 1;
             let exp = model(st, input);
-            let r = std::panic::catch_unwind(|| (drive::<N>(input, st, false), drive::<N>(input, st, true)));
-            let (p, c) = match r {
+            let r = std::panic::catch_unwind(|| (drive::<N>(input, st, false), drive::<N>(input, st, true), drive_span::<N>(input, st, false), drive_span::<N>(input, st, true)));
+            let (p, c, sp, sc) = match r {
                 Ok(x) => x,
                 Err(_) => {
                     rep.violation(viol("C06", "panic", input, what.to_string(), 0, 0, format!("{:?}", exp), "panic".into(), format!("stack {:?}", st)));
@@ -103,7 +131,7 @@ fn compare<'i, N: TypedNode<'i, R> + Debug>(what: &str, stacks: &'i [Vec<&'stati
                 rep.cell("expected-failure");
             }
             rep.outcome(format!("{:?}", exp.as_ref().map(|e| e.0)));
-            for (label, g) in [("parse", &p), ("check", &c)] {
+            for (label, g) in [("parse", &p), ("check", &c), ("parse-on-span", &sp), ("check-on-span", &sc)] {
                 let same = match &exp {
                     None => !g.0,
                     Some((end, stk)) => g.0 && g.1 == *end && &g.2 == stk,
@@ -232,6 +260,43 @@ pub fn run(o: &Opts) -> Report {
             None
         }
     });
+    // multi-byte entries and inputs (lengths in bytes and in characters differ)
+    {
+        let alpha: [&'static str; 3] = ["é", "aé", ""];
+        let mut stacks: Vec<Vec<&'static str>> = vec![vec![]];
+        let mut layer: Vec<Vec<&'static str>> = vec![vec![]];
+        for _ in 0..(if o.thorough { 3 } else { 2 }) {
+            let mut next = vec![];
+            for s in &layer {
+                for t in alpha {
+                    let mut v = s.clone();
+                    v.push(t);
+                    next.push(v);
+                }
+            }
+            stacks.extend(next.iter().cloned());
+            layer = next;
+        }
+        let inputs = enumerate::strings(&['a', 'é', '→'], if o.thorough { 5 } else { 4 });
+        all_slices(&stacks, &inputs, &mut rep);
+        compare::<PEEK_ALL>("PEEK_ALL", &stacks, &inputs, &mut rep, &|st, i| {
+            let cat: String = st.iter().rev().cloned().collect();
+            if i.starts_with(&cat) {
+                Some((cat.len(), own(st)))
+            } else {
+                None
+            }
+        });
+        compare::<POP>("POP", &stacks, &inputs, &mut rep, &|st, i| {
+            let top = st.last()?;
+            if i.starts_with(top) {
+                Some((top.len(), own(&st[..st.len() - 1])))
+            } else {
+                None
+            }
+        });
+        rep.cells.insert("multi_byte_stacks".into(), stacks.len() as u64);
+    }
     rep.max_len_done = n;
     rep.cells.insert("max_stack_depth".into(), depth as u64);
     rep
